@@ -412,6 +412,27 @@ def resolved_callee(f, call):
     return d
 
 
+def clone(node):
+    """copy of an AST subtree; the parent links (`_p`) of the original are not followed (copy.deepcopy would drag the whole module along)"""
+    if isinstance(node, list):
+        return [clone(x) for x in node]
+    if not isinstance(node, ast.AST):
+        return node
+    new = node.__class__()
+    for field, val in ast.iter_fields(node):
+        v = clone(val)
+        setattr(new, field, v)
+        for c in (v if isinstance(v, list) else [v]):
+            if isinstance(c, ast.AST):
+                c._p = new
+    for a in ('lineno', 'col_offset', 'end_lineno', 'end_col_offset'):
+        if hasattr(node, a):
+            setattr(new, a, getattr(node, a))
+    if hasattr(node, '_inlined_from'):
+        new._inlined_from = node._inlined_from
+    return new
+
+
 def expand(f, expr, at=None, depth=5, keep=()):
     """`expr` with local temporaries replaced by their defining expressions: a Name whose only reaching definition
     at `at` is a plain `name = <value>` is replaced by <value> (recursively, evaluated where it was bound).  Names with
@@ -429,7 +450,7 @@ def expand(f, expr, at=None, depth=5, keep=()):
             defs = rd.at(at_node, e.id)
             if len(defs) == 1 and defs[0].kind == 'assign' and defs[0].value is not None and \
                     e.id not in {x.id for x in ast.walk(defs[0].value) if isinstance(x, ast.Name)}:
-                return rec(_copy.deepcopy(defs[0].value), defs[0].node, d - 1)
+                return rec(clone(defs[0].value), defs[0].node, d - 1)
             return e
         if isinstance(e, (ast.Lambda, ast.ListComp, ast.SetComp, ast.DictComp, ast.GeneratorExp)):
             return e
@@ -443,7 +464,7 @@ def expand(f, expr, at=None, depth=5, keep=()):
                     elif isinstance(x, ast.keyword):
                         x.value = rec(x.value, at_node, d)
         return e
-    return rec(_copy.deepcopy(expr), at, depth)
+    return rec(clone(expr), at, depth)
 
 
 def xsrc(f, expr, at=None, keep=()):
